@@ -11,7 +11,11 @@ Pipeline (every run):
      theorems Lean refuses must equal the set Python refutes, and Tables.lean on disk must still be the text this
      run generated.  Any disagreement is reported as an internal inconsistency (violation without input).
 
-The obligation list below is shared with C16 (static half): `OBLIGATIONS(pid, ...)`.
+  5. dynamic cross-check of the translator's reading of the mex file: the real piqp_mex.cpp is compiled against
+     a mock MEX runtime (harness/mockmex/mex.h) and every core field is round-tripped through mexFunction for both
+     backends (harness/hmex.cpp); field lists come from the core headers only.
+
+The obligation list below is shared with C16 (static half): `OBLIGATIONS(pid)`.
 """
 import hashlib
 import json
@@ -515,25 +519,26 @@ def static_tables_check(chk):
     chk.cov["python_recomputed_obligations"] = len(obs)
     chk.cov["python_refuted"] = py_fail
 
+    # every concrete mismatch is a finding about the tree, whatever Lean said
+    lean_fail, other = ([], False) if (ok or audit_failed) else failing_theorems(pid, proof_log)
+    for n in py_fail:
+        ob = next(o for o in obs if o.name == n)
+        for sig, text in mism[n]:
+            chk.violation(sig, f"{text}\n\nobligation: {ob.what}\nrefuted Lean theorem: {ns}.{n}   "
+                               f"(statement: {ws(ob.lean)})\n"
+                               f"tables: {os.path.relpath(TABLES_LEAN, common.ROOT)} generated from {common.REPO}\n"
+                               f"lake refused the proof of: {', '.join(lean_fail) or '(nothing)'}")
     if ok:
         if py_fail:
-            txt = "\n".join(f"{n}: {s}  {t}" for n in py_fail for s, t in mism[n])
             chk.violation(f"internal:{pid}:lean-accepts-python-refutes:{py_fail[0]}",
-                          "Lean proved every theorem but the Python recomputation over the same tables finds:\n" + txt,
+                          f"Lean proved every theorem but the Python recomputation over the same tables refutes {py_fail}",
                           no_input=True)
     elif not audit_failed:
-        lean_fail, other = failing_theorems(pid, proof_log)
         chk.cov["lean_refused"] = lean_fail
         if lean_fail:
-            # theorems lake did not complain about were elaborated (not axiom-audited on a failing build)
+            # theorems lake did not complain about were elaborated and kernel-checked, but not axiom-audited
+            # (no .olean exists for a module with an error); `discharged` therefore stays 0 for this run
             chk.cov["elaborated_without_error"] = len(registered) - len(lean_fail)
-        for n in py_fail:
-            for sig, text in mism[n]:
-                ob = next(o for o in obs if o.name == n)
-                chk.violation(sig, f"{text}\n\nobligation: {ob.what}\nrefuted Lean theorem: {ns}.{n}   "
-                                   f"(statement: {ws(ob.lean)})\n"
-                                   f"tables: {os.path.relpath(TABLES_LEAN, common.ROOT)} generated from {common.REPO}\n"
-                                   f"lake said the proof of: {', '.join(lean_fail) or '(could not attribute)'} failed")
         if not py_fail:
             first = lean_fail[0] if lean_fail else "build"
             chk.violation(f"proof:{pid}:{first}", "the Lean build failed but the Python search finds no table mismatch.\n\n"
@@ -557,6 +562,76 @@ def static_tables_check(chk):
     return ok and not py_fail and not incons
 
 
+# --------------------------------------------------------------------------------------------- dynamic mex cross-check
+
+def write_hmex_fields(L):
+    """X-macro lists of the CORE fields (from settings.hpp/results.hpp only) for harness/hmex.cpp."""
+    kinds = {"T": "T", "isize": "isize", "bool": "bool", "Status": "Status"}
+    lines = ["// generated by vlib/props/c17.py from the core tables of translate/tables.py -- do not edit"]
+
+    def block(macro, rows):
+        lines.append(f"#define {macro}(X) \\")
+        lines.extend(f"    {r} \\" for r in rows)
+        lines.append("")
+    st = [(n, t) for n, t in L["coreSettingsTypes"]]
+    inf = [(n, t) for n, t in L["coreInfoTypes"]]
+    vec = [n for n, t in L["coreResultTypes"] if t == "Vec<T>"]
+    for n, t in st + inf:
+        if t not in kinds:
+            return None, f"core member {n} has type {t}, which the mex harness cannot fabricate"
+    lines.append(f"#define HMEX_N_SETTINGS {len(st)}")
+    block("HMEX_SETTINGS_FIELDS", [f"X({n}, {kinds[t]})" for n, t in st])
+    lines.append(f"#define HMEX_N_INFO {len(inf)}")
+    block("HMEX_INFO_FIELDS", [f"X({n}, {kinds[t]})" for n, t in inf])
+    lines.append(f"#define HMEX_N_RESULT_VEC {len(vec)}")
+    block("HMEX_RESULT_VEC_FIELDS", [f"X({n})" for n in vec])
+    path = os.path.join(common.BUILD, "hmex_fields.inc")
+    content = "\n".join(lines) + "\n"
+    try:
+        same = open(path).read() == content
+    except OSError:
+        same = False
+    if not same:
+        tmp = f"{path}.tmp{os.getpid()}"
+        with open(tmp, "w") as f:
+            f.write(content)
+        os.replace(tmp, path)
+    return path, None
+
+
+def dynamic_mex(chk, L):
+    """Compile the real piqp_mex.cpp against harness/mockmex/mex.h and round-trip every core field through
+    mexFunction (both backends).  Guards the translator's reading of the mex file with an execution."""
+    inc, err = write_hmex_fields(L)
+    if inc is None:
+        chk.violation("mex:dynamic:fields", err, no_input=True)
+        return
+    mock = os.path.join(common.HARNESS, "mockmex")
+    mex_src = os.path.join(common.REPO, "interfaces", "matlab", "piqp_mex.cpp")
+    ok, exe, log = common.build_cpp(
+        "hmex", [os.path.join(common.HARNESS, "hmex.cpp")],
+        flags=["-O1", "-w", "-I", mock, "-I", common.BUILD, f'-DMEX_SOURCE="{mex_src}"'],
+        extra_dep_files=[inc, os.path.join(mock, "mex.h")], hooks=False, timeout=900)
+    if not ok:
+        chk.violation("mex:dynamic:build", "interfaces/matlab/piqp_mex.cpp does not compile against the mock MEX runtime "
+                      "with the core field lists (a core field the harness reads may not exist, or the mex file uses an "
+                      "API the mock lacks):\n\n" + log[-5000:], no_input=True)
+        return
+    rc, out = common.sh([exe], timeout=300)
+    done = re.search(r"^DONE (\d+) (\d+)$", out, re.M)
+    bad = re.findall(r"^MISMATCH (\S+) (.*)$", out, re.M)
+    if rc != 0 or not done:
+        chk.violation("mex:dynamic:crash", f"hmex exited with {rc} without finishing:\n{out[-3000:]}", no_input=True)
+        return
+    chk.cov["mex_dynamic_checks"] = int(done.group(1))
+    chk.cov["mex_dynamic_mismatches"] = len(bad)
+    chk.cov["mex_dynamic_cmd"] = "harness/hmex.cpp: real piqp_mex.cpp + mock mex.h; every core field x {dense,sparse} x both directions"
+    for sig, text in bad:
+        chk.violation(sig, f"interfaces/matlab/piqp_mex.cpp under the mock MEX runtime: {sig}: {text}\n"
+                           f"(value pushed through mexFunction differs from the C++ object behind the handle)\n"
+                           f"run: {exe}")
+
+
 def add_samples(chk, ctx_tables):
     L = ctx_tables
     for tab, i in (("octStructToSettings", 9), ("mexInfoToStruct", 1), ("pySettingsPairs", 4),
@@ -570,15 +645,21 @@ def run(replay=None):
     if replay:
         chk.log(f"replay {replay}: the check is a pure function of the working tree; re-running it in full")
     static_tables_check(chk)
+    tables = None
     try:
         with open(TABLES_JSON) as f:
-            add_samples(chk, json.load(f)["lean"])
+            tables = json.load(f)["lean"]
     except (OSError, ValueError, KeyError):
         pass
+    if tables is not None and not any(s.startswith("translator:") for s, _, _ in chk.violations):
+        add_samples(chk, tables)
+        dynamic_mex(chk, tables)
     chk.cov["trusted_base"] = chk.cov["trusted_base"][:2] + [
         "translate/tables.py (regex/brace-matching extractor; fails closed on unparsed statements inside the blocks it reads)",
         "PiqpProofs/TableLogic.lean predicates (Wired, Covers, SameTable, TypesMatch) and the alias/type vocabularies written there",
         "the file list of the property (bindings outside those files, e.g. the .m wrappers, are not covered)",
+        "harness/hmex.cpp + harness/mockmex/mex.h, g++ 12 (dynamic cross-check of the mex path only; it can add "
+        "violations, it discharges no obligation)",
     ]
     chk.assumptions.append("a binding is 'wired' when the textual member/key names on both sides of each copy "
                            "statement coincide; value conversions are checked only by cast/accessor kind")
